@@ -190,3 +190,39 @@ def falsifying_case(rng, max_depth=3, features=None, tries=40, glob=None, closur
             if not v:
                 return {"expr": expr, "env": envd}
     return None
+
+
+SPECIAL = [
+    # (params, expr, env overrides) - corner forms of the supported grammar
+    (None, "max(*xs) > 10", {"xs": [1, 2]}),
+    (None, "min(x, *xs) > 10", {"xs": [1, 2]}),
+    (None, "sum([*xs, y]) > 100", {"xs": [1, 2]}),
+    (None, "len({**d, 'z': 1}) > 10", {"d": {"a": 1}}),
+    (None, "[x for x in xs if x > 0] == [99]", {"xs": [1, -1, 2]}),
+    (None, "[x + y for x in xs] == [99]", {"xs": [1, 2]}),
+    (None, "all(x > 0 for x in xs) and y > 100", {"xs": [1, 2]}),
+    (None, "all(e > 0 for e in xs) is True", {"xs": [1, -2]}),
+    (None, "(all(e > 0 for e in xs) == True)", {"xs": [1, -2]}),
+    (None, "xs[all(e > 5 for e in xs)] > 10", {"xs": [1, 2]}),
+    (None, "not all(e > 0 for e in xs) and y > 100", {"xs": [1, -2]}),
+    (None, "all(e > xs[0] for e in o.b) and len(o.b) > 0", {"xs": [], "ob": []}),
+    (None, "any(e > 10 for e in xs)", {"xs": [1, 2]}),
+    (None, "all(e > 0 for e in xs if e != y)", {"xs": [1, -1, 0], "y": 1}),
+    (None, "all(a + b > 2 for a in xs for b in o.b)", {"xs": [1, 2], "ob": [0, 1]}),
+    (None, "(w := x + 1) > 10 and w > 0", {}),
+    (None, "f'{x:>{y}}' == 'zzz'", {"x": 1, "y": 3}),
+    (None, "f'{s!r}-{x}' == 'zzz'", {}),
+    (None, "{e for e in xs} == {99}", {"xs": [1, 2]}),
+    (None, "{e: e + 1 for e in xs} == {}", {"xs": [1, 2]}),
+    (None, "(x, y) == (99, 98)", {}),
+    (None, "{x, y} == {99}", {}),
+    (None, "xs[0:2] == [99]", {"xs": [1, 2, 3]}),
+    (None, "xs[::2] == [99]", {"xs": [1, 2, 3]}),
+    (["x", "id"], "id is not None and x > 100", {"x": 1, "id": None}),
+    (["x", "len"], "str(len) == 'nope' and x > 100", {"x": 1, "len": None}),
+    (["x", "id"], "x > 100", {"x": 1, "id": None}),
+    # the last operand of and/or and the last link of a chain are never truth-tested by Python
+    (["x", "wb"], "(x > 100 or wb) is None", {"x": 1, "wb": "WEIRDBOOL"}),
+    (["x", "wb"], "(x < 100 and wb) is None", {"x": 1, "wb": "WEIRDBOOL"}),
+    (["x", "wb"], "(wb if x < 100 else x) is None", {"x": 1, "wb": "WEIRDBOOL"}),
+]
